@@ -290,6 +290,10 @@ func (ref *FileEnt) Read(ctx context.Context, p []byte,
 	defer ref.Unlock()
 
 	n := int64(len(ref.Data))
+	if offset < 0 {
+		// offsets of 2^63 and above arrive here as negative numbers
+		return 0, p9p.MessageRerror{Ename: "invalid address"}
+	}
 	if offset > n {
 		return 0, io.EOF
 	}
@@ -311,7 +315,7 @@ func (ref *FileEnt) Write(ctx context.Context, p []byte,
 	defer ref.Unlock()
 
 	n := int64(len(ref.Data))
-	if offset > n {
+	if offset < 0 || offset > n {
 		return 0, p9p.MessageRerror{Ename: "invalid address"}
 	}
 	ref.Info.Qid.Version++
